@@ -190,9 +190,19 @@ class Point:
         r = random.Random("%s|%s" % (self.seed, name))
         return Fraction(r.randint(1, _PRIME_SPACE), r.randint(1, 997))
 
+    # fabs/abs are interpreted (so fabs(fabs(x)) == fabs(x) and x != fabs(x) where x < 0); functions whose range is
+    # positive by contract (coefficient profiles, sqrt, exp, cosh) get positive values, every other uninterpreted
+    # function (Jacobian entries, sin, cos, input functions, ...) gets a value of either sign.
+    POSITIVE_FUNCS = ("coefficients.alpha", "coefficients.beta", "sqrt", "exp", "cosh")
+
     def func_value(self, name, vals):
+        if name in ("fabs", "abs") and len(vals) == 1:
+            return abs(vals[0])
         r = random.Random("%s|f|%s|%s" % (self.seed, name, "|".join(str(v) for v in vals)))
-        return Fraction(r.randint(1, _PRIME_SPACE), r.randint(1, 997))
+        v = Fraction(r.randint(1, _PRIME_SPACE), r.randint(1, 997))
+        if name not in self.POSITIVE_FUNCS and not name.startswith(("rd_", "merged_token")) and r.random() < 0.5:
+            v = -v
+        return v
 
     def value(self, node):
         memo = self.memo
@@ -384,9 +394,10 @@ def show(n, limit=250):
         return str(s)
 
 
-def subst(n, mapping):
-    """replace atoms (by name) with nodes"""
+def subst(n, mapping, funcs=None):
+    """replace atoms (by name) with nodes; funcs: {function name: f(args) -> Node} replaces uninterpreted applications"""
     memo = {}
+    funcs = funcs or {}
 
     def go(x):
         if x in memo:
@@ -396,7 +407,8 @@ def subst(n, mapping):
         elif x.op == "x":
             r = mapping.get(x.a, x)
         elif x.op == "f":
-            r = func(x.a, *[go(y) for y in x.b])
+            args = [go(y) for y in x.b]
+            r = funcs[x.a](args) if x.a in funcs else func(x.a, *args)
         elif x.op == "+":
             r = add(go(x.a), go(x.b))
         elif x.op == "-":
